@@ -1684,7 +1684,7 @@ def simp_add_multiple(_, expr):
             operands[base_expr] = operands.get(base_expr, 0) + int(factor)
         elif arg.is_op('<<') and arg.args[1].is_int():
             base_expr, factor = arg.args
-            operands[base_expr] = operands.get(base_expr, 0) + 2 ** int(factor)
+            operands[base_expr] = operands.get(base_expr, 0) + pow(2, int(factor), 1 << expr.size)
         elif arg.is_op("-"):
             arg = arg.args[0]
             if arg.is_op('<<') and arg.args[1].is_int():
